@@ -6,5 +6,6 @@ bad=$(echo "$out" | grep -v "obligations hold" | head -5)
 n=$(echo "$out" | grep -c "obligations hold")
 if [ -n "$bad" ] || [ "$n" != "18" ]; then echo "NOT COMMITTED: checks are not clean"; echo "$bad"; exit 1; fi
 if [ -n "$(git -C /repo status --short)" ]; then echo "NOT COMMITTED: /repo has uncommitted changes"; exit 1; fi
+python3-vt tools/make_reference.py >/dev/null   # /repo is clean here: the snapshot always matches the tree the checks were just run on
 python3 tools/gen_manifest.py >/dev/null
 git add -A && git commit -qm "$1" && echo "committed: $1"
